@@ -48,6 +48,11 @@ def run(ctx, log):
         "stel s = \"abc\"; stel c = s[1]; c[0] = \"Z\"; [s, c]", "stel a = [\"x\"]; stel e = a[0]; e[0] = \"y\"; a",
         "stel a = [1, 2, 3]; a[0] = a[1] = 7; a", "stel a = [0]; a[a[0]] = 1; a[a[0] - 1]",
     ]
+    directed += [
+        "stel a = \"kat\"; stel b = \"kat\"; a[0] = \"r\"; [a, b]", "stel los = \"één\"; stel doos = [\"één\", \"één\"]; stel e = doos[0]; e[2] = \"𝄞𝄞\"; [los, doos, lengte(los)]",
+        "stel i = 0; zolang i < 3 { i += 1; stel s = \"abc\"; s[0] = \"\"; print(\"{}\", s) } i", "stel i = 0; stel r = []; zolang i < 2 { i += 1; stel s = \"xy\"; s[1] = \"!\"; r = [r, s] } r",
+        "functie f() { stel s = \"abc\"; s[0] = \"Z\"; s } [f(), f(), \"abc\"]", "stel a = \"q\"; { stel b = \"q\"; b[0] = \"w\" } als ja { stel c = \"q\"; c[0] = \"e\" } [a, \"q\"]",
+    ]
     progs += directed
     # an array stored into itself or into one of its own elements is still the same array (read back through the
     # cycle, never printed: printing a cyclic array is the recorded finding D26)
